@@ -376,6 +376,15 @@ sqf::runtime::runtime::result sqf::runtime::runtime::execute(sqf::runtime::runti
                         else
                         {
                             res = result::ok;
+                            // A sleeping script executes nothing, so execute_do cannot notice that the run is over its limit
+                            if (configuration().max_runtime != std::chrono::milliseconds::zero() &&
+                                configuration().max_runtime + m_run_start_timestamp < std::chrono::system_clock::now())
+                            {
+                                __logmsg(logmessage::runtime::MaximumRuntimeReached(
+                                    m_context_active->frames_size() > 0 ? m_context_active->current_frame().diag_info_from_position() : sqf::runtime::diagnostics::diag_info{},
+                                    configuration().max_runtime));
+                                exit(0);
+                            }
                         }
                     }
                     else
